@@ -142,6 +142,21 @@ func c06BigShapes() []string {
 		out = append(out, "select key, value + '"+strings.Repeat("xy", d*4)+"' where key = 'k02'")
 		out = append(out, "select key where int(value) + "+strings.Repeat("1 + ", d)+"1 > 0")
 	}
+	// one name defined twice (or more), the later definition using the name itself; names used
+	// before their definition; a name that is also a keyword / function name: whatever the
+	// resolution rule, no stack overflow, no endless loop
+	out = append(out,
+		"select key as a, a + 'x' as a where key ^= 'k'",
+		"select value as v, upper(v) as v, v + v as v where key ^= 'k0'",
+		"select key as a, a as a, a as a where a ^= 'k'",
+		"select a + 'x' as a, key as a where key ^= 'k'",
+		"select key as a, a + 'x' as b, b + a as a, a + b as b where b ^= 'k' & a != ''",
+		"select int(value) as n, n + 1 as n, n * 2 as n where n > 0 order by n",
+		"select key as a, count(1) as a where key ^= 'k' group by a",
+		"select key as a, a + 'x' as a, count(1) as c where key ^= 'k' group by a order by a",
+		"select value as `upper`, upper(`upper`) as `upper` where `upper` != ''",
+		"select key as `key`, `key` + 'x' as `key` where `key` ^= 'k'",
+	)
 	// ORDER BY over every kind of GROUP BY key (the aggregate node renders its group keys)
 	for _, g := range []string{"is_int(value)", "key ^= 'k0'", "int(value)", "float(value)", "upper(value)", "strlen(value)", "split(value, ',')[0]", "value = '12'"} {
 		out = append(out, "select "+g+" as g, count(1) as c where key >= '' group by g order by g")
